@@ -147,6 +147,9 @@ def run_case(case):
     k_shift = int(rng.integers(-3 * n_all, 3 * n_all))
     windows["shifted window on the sample grid"] = t[0] + (np.arange(int(rng.integers(2, 2 * N))) + k_shift) * dts
     windows["off-grid window"] = t[0] + rng.uniform(-1, 1) * N * dts + np.arange(int(rng.integers(2, N))) * dts * float(rng.uniform(0.3, 1.7))
+    windows["same start and sample count, coarser spacing"] = t[0] + np.arange(N) * dts * float(rng.choice([2, 3]))
+    windows["same start and sample count, finer spacing"] = t[0] + np.arange(N) * dts * 0.5
+    windows["irregular times"] = np.sort(t[0] + rng.uniform(-0.5, 1.5, size=int(rng.integers(3, N + 3))) * N * dts)
     for name, tq in windows.items():
         got = vals if name == "own grid" else np.array(n.with_times(tq).values)
         if impl == "fft":
